@@ -14,6 +14,8 @@ REPLAYERS = {
     "note_replay": ("Extract_Note.v", "_extract_note", ["Model/NoteReplay.vo"]),
     "cv_replay": ("Extract_Cv.v", "_extract_cv", ["Model/CvReplay.vo"]),
     "muwait_replay": ("Extract_MuWait.v", "_extract_muwait", ["Model/MuWaitReplay.vo"]),
+    "semwait_replay": ("Extract_SemWait.v", "_extract_semwait", ["Model/SemWaitReplay.vo"]),
+    "muxfer_replay": ("Extract_MuXfer.v", "_extract_muxfer", ["Model/MuXferReplay.vo"]),
     "mudbg_replay": ("Extract_MuDbg.v", "_extract_mudbg", ["Model/MuDbgReplay.vo"]),
     "cvdbg_replay": ("Extract_CvDbg.v", "_extract_cvdbg", ["Model/CvDbgReplay.vo"]),
 }
